@@ -169,19 +169,42 @@ def gen_value(rng, canon, tamed, knobs):
     return t(5)
 
 
+# whitespace the header normaliser must treat as a word separator (str.split()): blanks, TAB, line breaks,
+# NBSP and other Unicode spaces; markdown cells cannot hold line breaks
+HEADER_SEPS = [" ", "  ", "\t", "\n", "\u00a0", "\u2003", " \t ", "\r\n", "\u3000", "\x0b", "\u2028"]
+HEADER_SEPS_MD = [" ", "  ", "\t", "\u00a0", "\u2003", " \t ", "\u3000"]
+
+
 def spell(rng, canon, noise):
+    """A spelling of the setting's header.  `noise` (False | "any" | "md"): any form the header normaliser
+    accepts — words in lower / upper / title case, separated by `_` or by any run of Unicode whitespace,
+    with leading / trailing whitespace."""
     s = rng.choice(SPELLINGS.get(canon, [canon]))
-    if noise and s == s.lower() and rng.random() < 0.25:
-        k = rng.random()
-        if k < 0.3:
-            s = s.upper()
-        elif k < 0.55:
-            s = s.replace("_", " ").title()
-        elif k < 0.8:
-            s = " " + s + " "
-        else:
-            s = s.replace("_", "  ")
+    if noise and s == s.lower() and rng.random() < 0.35:
+        seps = HEADER_SEPS_MD if noise == "md" else [x for x in HEADER_SEPS if x != "\x0b"] if noise == "xlsx" else HEADER_SEPS
+        words = s.split("_")
+        case = rng.choice(["lower", "lower", "upper", "title", "mixed"])
+        if case == "upper":
+            words = [w.upper() for w in words]
+        elif case == "title":
+            words = [w.title() for w in words]
+        elif case == "mixed":
+            words = [w.upper() if rng.random() < 0.5 else w for w in words]
+        out = words[0]
+        for w in words[1:]:
+            out += rng.choice(["_", rng.choice(seps), rng.choice(seps)]) + w
+        if rng.random() < 0.3:
+            out = rng.choice(seps) + out
+        if rng.random() < 0.3:
+            out = out + rng.choice(seps)
+        if out == s and len(words) > 1:  # make the multi-word case bite: lower case, non-blank whitespace
+            out = rng.choice(seps[2:]).join(words)
+        s = out
     return s
+
+
+def canon_header(h: str) -> str:
+    return "_".join(h.split()).lower()
 
 
 SURVEYS = [
@@ -256,7 +279,7 @@ def gen_case(rng, tier_big=False, subset=None):
     else:
         chosen = list(subset)
     rng.shuffle(chosen)
-    noise = channel == "dict" and rng.random() < 0.5
+    noise = rng.random() < 0.5 and ("any" if channel == "dict" else "xlsx" if channel.endswith("xlsx") else "md")
     intended, attribute, cells = [], [], []
     ns_prefixes = []
     if "namespaces" in chosen:
@@ -323,7 +346,7 @@ def gen_case(rng, tier_big=False, subset=None):
         # correspondence of the duplicate-header rules
         canon = rng.choice(["title", "id_string"])
         a, b = rng.sample(SPELLINGS[canon], 2)
-        cells = [c for c in cells if c[0].strip().lower().replace(" ", "_") not in SPELLINGS[canon]]
+        cells = [c for c in cells if canon_header(c[0]) not in SPELLINGS[canon]]
         cells.insert(rng.randint(0, len(cells)), [a, "dupA"])
         cells.insert(rng.randint(0, len(cells)), [b, "dupB"])
         dup = True
